@@ -1,12 +1,516 @@
 package main
 
 import (
+	"bytes"
+	"context"
+	"crypto/sha256"
+	"encoding/xml"
+	"fmt"
+	"io"
+	"math"
+	"math/rand"
+	"reflect"
+	"regexp"
+	"sort"
+	"strconv"
+	"strings"
+	"sync"
+
 	"oss.terrastruct.com/d2/d2graph"
+	"oss.terrastruct.com/d2/d2lib"
+	"oss.terrastruct.com/d2/d2renderers/d2svg"
 	"oss.terrastruct.com/d2/d2target"
+	"oss.terrastruct.com/d2/d2themes"
+	"oss.terrastruct.com/d2/d2themes/d2themescatalog"
+	"oss.terrastruct.com/d2/lib/geo"
+	"oss.terrastruct.com/d2/lib/label"
 
 	"verifharness/internal/tr"
 )
 
-// pipeRender: export/render stage events (filled in by the render families).
-func pipeRender(in pipeInput, text string, diagram *d2target.Diagram, g *d2graph.Graph, evs *[]tr.M, nt map[string]bool) {
+// Export / render stage events: C28 (export one-to-one, user styles win), C29 (bounding box and
+// viewport), C30 (well-formed SVG, no injection), C31 (themes and overrides), C25 (byte-identical output).
+
+const injectMarker = "ZQXJ"
+
+func allThemeIDs() []int64 {
+	var ids []int64
+	for _, t := range d2themescatalog.LightCatalog {
+		ids = append(ids, t.ID)
+	}
+	for _, t := range d2themescatalog.DarkCatalog {
+		ids = append(ids, t.ID)
+	}
+	return ids
 }
+
+var themeCodes = []string{"N1", "N2", "N3", "N4", "N5", "N6", "N7", "B1", "B2", "B3", "B4", "B5", "B6", "AA2", "AA4", "AA5", "AB4", "AB5"}
+
+func themeColor(t d2themes.Theme, code string) string {
+	v := reflect.ValueOf(t.Colors)
+	if f := v.FieldByName(code); f.IsValid() {
+		return f.String()
+	}
+	n := reflect.ValueOf(t.Colors.Neutrals)
+	if f := n.FieldByName(code); f.IsValid() {
+		return f.String()
+	}
+	return "?"
+}
+
+func compileWith(text, engine string, ro *d2svg.RenderOpts) (*d2target.Diagram, *d2graph.Graph, error) {
+	lay := layoutFor(engine)
+	return d2lib.Compile(quietCtx(), text, &d2lib.CompileOptions{Ruler: ruler(), LayoutResolver: func(string) (d2graph.LayoutGraph, error) { return lay, nil }}, ro)
+}
+
+func numEq(user string, exported float64) bool {
+	f, err := strconv.ParseFloat(user, 64)
+	return err == nil && math.Abs(f-exported) < 1e-9
+}
+
+// userStyles compares what the user wrote on an object/connection with what the export carries.
+func userStyles(id string, a map[string]string, get func(k string) (string, bool, bool)) []tr.M {
+	var res []tr.M
+	keys := make([]string, 0, len(a))
+	for k := range a {
+		keys = append(keys, k)
+	}
+	sort.Strings(keys)
+	for _, k := range keys {
+		if !strings.HasPrefix(k, "style.") {
+			continue
+		}
+		exp, same, known := get(strings.TrimPrefix(k, "style."))
+		if !known {
+			continue
+		}
+		res = append(res, tr.M{"id": id, "key": k, "user": a[k], "exported": exp, "same": tr.B(same)})
+	}
+	return res
+}
+
+func pipeRender(in pipeInput, text string, diagram0 *d2target.Diagram, g *d2graph.Graph, evs *[]tr.M, nt map[string]bool) {
+	r := rand.New(rand.NewSource(in.Seed*131 + 3))
+	eng := in.Engine
+	if eng == "" {
+		eng = "dagre"
+	}
+	themes := allThemeIDs()
+
+	// ---------------------------------------------------------------- export under several themes (C28)
+	pick := []int64{themes[r.Intn(len(themes))], []int64{300, 301, 303}[r.Intn(3)]} // + terminal, terminal grayscale, c4: themes with special rules
+	seenT := map[int64]bool{}
+	for _, tid := range pick {
+		if seenT[tid] || d2themescatalog.Find(tid).ID != tid {
+			continue
+		}
+		seenT[tid] = true
+		tid := tid
+		guard("export", evs, func() {
+			d, gg, err := compileWith(text, eng, &d2svg.RenderOpts{ThemeID: &tid})
+			ev := tr.M{"ev": "export", "theme": int(tid), "ok": tr.B(err == nil), "objIDs": []string{}, "shapeIDs": []string{}, "edges": [][]string{}, "conns": [][]string{}, "styles": []tr.M{}}
+			if err == nil {
+				objIDs, shapeIDs := []string{}, []string{}
+				for _, o := range gg.Objects {
+					objIDs = append(objIDs, o.AbsID())
+				}
+				for _, s := range d.Shapes {
+					shapeIDs = append(shapeIDs, s.ID)
+				}
+				edges, conns := [][]string{}, [][]string{}
+				inBoard := map[*d2graph.Object]bool{}
+				for _, o := range gg.Objects {
+					inBoard[o] = true
+				}
+				for _, e := range gg.Edges {
+					if inBoard[e.Src] && inBoard[e.Dst] {
+						edges = append(edges, []string{e.AbsID(), e.Src.AbsID(), e.Dst.AbsID()})
+					}
+				}
+				for _, c := range d.Connections {
+					if !strings.Contains(c.Dst, "-lifeline-end-") {
+						conns = append(conns, []string{c.ID, c.Src, c.Dst})
+					}
+				}
+				styles := []tr.M{}
+				shapeByID := map[string]d2target.Shape{}
+				for _, s := range d.Shapes {
+					shapeByID[s.ID] = s
+				}
+				for _, o := range gg.Objects {
+					s, ok := shapeByID[o.AbsID()]
+					if !ok {
+						continue
+					}
+					a := map[string]string{}
+					collectStyle(o.Style, a)
+					styles = append(styles, userStyles(o.AbsID(), a, func(k string) (string, bool, bool) {
+						switch k {
+						case "opacity":
+							return fmt.Sprint(s.Opacity), numEq(a["style.opacity"], s.Opacity), true
+						case "stroke":
+							return s.Stroke, s.Stroke == a["style.stroke"], true
+						case "fill":
+							return s.Fill, s.Fill == a["style.fill"], true
+						case "strokeWidth":
+							return fmt.Sprint(s.StrokeWidth), numEq(a["style.strokeWidth"], float64(s.StrokeWidth)), true
+						case "strokeDash":
+							return fmt.Sprint(s.StrokeDash), numEq(a["style.strokeDash"], s.StrokeDash), true
+						case "borderRadius":
+							return fmt.Sprint(s.BorderRadius), numEq(a["style.borderRadius"], float64(s.BorderRadius)), true
+						case "shadow":
+							return fmt.Sprint(s.Shadow), fmt.Sprint(s.Shadow) == a["style.shadow"], true
+						case "3d":
+							return fmt.Sprint(s.ThreeDee), fmt.Sprint(s.ThreeDee) == a["style.3d"], true
+						case "multiple":
+							return fmt.Sprint(s.Multiple), fmt.Sprint(s.Multiple) == a["style.multiple"], true
+						case "fontSize":
+							return fmt.Sprint(s.FontSize), numEq(a["style.fontSize"], float64(s.FontSize)), true
+						case "fontColor":
+							return s.Color, s.Color == a["style.fontColor"], true
+						case "bold":
+							return fmt.Sprint(s.Bold), fmt.Sprint(s.Bold) == a["style.bold"], true
+						case "italic":
+							return fmt.Sprint(s.Italic), fmt.Sprint(s.Italic) == a["style.italic"], true
+						case "doubleBorder":
+							return fmt.Sprint(s.DoubleBorder), fmt.Sprint(s.DoubleBorder) == a["style.doubleBorder"], true
+						}
+						return "", false, false
+					})...)
+				}
+				connByID := map[string]d2target.Connection{}
+				for _, c := range d.Connections {
+					connByID[c.ID] = c
+				}
+				for _, e := range gg.Edges {
+					c, ok := connByID[e.AbsID()]
+					if !ok || !inBoard[e.Src] || !inBoard[e.Dst] {
+						continue
+					}
+					a := map[string]string{}
+					collectStyle(e.Style, a)
+					styles = append(styles, userStyles(e.AbsID(), a, func(k string) (string, bool, bool) {
+						switch k {
+						case "opacity":
+							return fmt.Sprint(c.Opacity), numEq(a["style.opacity"], c.Opacity), true
+						case "stroke":
+							return c.Stroke, c.Stroke == a["style.stroke"], true
+						case "strokeWidth":
+							return fmt.Sprint(c.StrokeWidth), numEq(a["style.strokeWidth"], float64(c.StrokeWidth)), true
+						case "strokeDash":
+							return fmt.Sprint(c.StrokeDash), numEq(a["style.strokeDash"], c.StrokeDash), true
+						case "fontSize":
+							return fmt.Sprint(c.FontSize), numEq(a["style.fontSize"], float64(c.FontSize)), true
+						case "fontColor":
+							return c.Color, c.Color == a["style.fontColor"], true
+						case "bold":
+							return fmt.Sprint(c.Bold), fmt.Sprint(c.Bold) == a["style.bold"], true
+						case "italic":
+							return fmt.Sprint(c.Italic), fmt.Sprint(c.Italic) == a["style.italic"], true
+						case "animated":
+							return fmt.Sprint(c.Animated), fmt.Sprint(c.Animated) == a["style.animated"], true
+						}
+						return "", false, false
+					})...)
+				}
+				ev["objIDs"], ev["shapeIDs"], ev["edges"], ev["conns"], ev["styles"] = objIDs, shapeIDs, edges, conns, styles
+			} else {
+				ev["msg"] = firstN(err.Error(), 160)
+			}
+			*evs = append(*evs, ev)
+		})
+	}
+	nt["C28"] = true
+
+	// ---------------------------------------------------------------- render under option combinations (C29, C30, C31, C25)
+	type combo struct {
+		pad    int64
+		sketch bool
+		center bool
+		scale  float64
+		theme  int64
+		dark   int64 // -1 none
+		ovr    int   // number of overrides
+	}
+	combos := []combo{{pad: 100, theme: 0, dark: -1}, {pad: int64(r.Intn(200)), sketch: true, theme: themes[r.Intn(len(themes))], dark: -1},
+		{pad: int64(r.Intn(9)), center: true, scale: 0.5 + r.Float64(), theme: themes[r.Intn(len(themes))], dark: []int64{200, 201}[r.Intn(2)], ovr: 1 + r.Intn(4)}}
+	for ci, cb := range combos {
+		cb := cb
+		guard("render", evs, func() {
+			ro := &d2svg.RenderOpts{Pad: &cb.pad, Sketch: &cb.sketch, Center: &cb.center, ThemeID: &cb.theme}
+			if cb.scale > 0 {
+				ro.Scale = &cb.scale
+			}
+			if cb.dark >= 0 {
+				ro.DarkThemeID = &cb.dark
+			}
+			ovr := map[string]string{}
+			if cb.ovr > 0 {
+				to := &d2target.ThemeOverrides{}
+				dto := &d2target.ThemeOverrides{}
+				for k := 0; k < cb.ovr; k++ {
+					code := themeCodes[r.Intn(len(themeCodes))]
+					col := fmt.Sprintf("#%02x%02x%02x", r.Intn(256), r.Intn(256), r.Intn(256))
+					c2 := col
+					reflect.ValueOf(to).Elem().FieldByName(code).Set(reflect.ValueOf(&c2))
+					ovr[code] = col
+					if k%2 == 0 {
+						c3 := col
+						reflect.ValueOf(dto).Elem().FieldByName(code).Set(reflect.ValueOf(&c3))
+						ovr["dark:"+code] = col
+					}
+				}
+				ro.ThemeOverrides = to
+				ro.DarkThemeOverrides = dto
+			}
+			d, _, err := compileWith(text, eng, ro)
+			if err != nil {
+				*evs = append(*evs, tr.M{"ev": "render", "combo": ci, "ok": 0, "msg": firstN(err.Error(), 160)})
+				return
+			}
+			svg, err := d2svg.Render(d, ro)
+			ev := tr.M{"ev": "render", "combo": ci, "ok": tr.B(err == nil), "msg": "", "pad": int(cb.pad), "sketch": tr.B(cb.sketch), "theme": int(cb.theme), "dark": int(cb.dark)}
+			if err != nil {
+				ev["msg"] = firstN(err.Error(), 160)
+				*evs = append(*evs, ev)
+				return
+			}
+			// ---- C29 extents vs bounding box vs viewBox
+			tl, br := d.BoundingBox()
+			ev["bbox"] = []int{tl.X, tl.Y, br.X, br.Y}
+			ev["extents"] = extentsOf(d)
+			ev["viewBox"] = innerViewBox(svg)
+			// ---- C30
+			xmlOK, elems, attrs, bad := svgScan(svg)
+			ev["xmlOK"], ev["elems"], ev["attrs"], ev["markerInNames"] = tr.B(xmlOK), elems, attrs, bad
+			// ---- C31: theme colour classes in the stylesheet
+			light := d2themescatalog.Find(cb.theme)
+			ev["css"] = cssColors(svg, false)
+			exp := tr.M{}
+			for _, c := range themeCodes {
+				v := themeColor(light, c)
+				if o, ok := ovr[c]; ok {
+					v = o
+				}
+				exp[c] = v
+			}
+			ev["cssExpected"] = exp
+			ev["cssDark"] = tr.M{}
+			ev["cssDarkExpected"] = tr.M{}
+			if cb.dark >= 0 {
+				dk := d2themescatalog.Find(cb.dark)
+				ev["cssDark"] = cssColors(svg, true)
+				de := tr.M{}
+				for _, c := range themeCodes {
+					v := themeColor(dk, c)
+					if o, ok := ovr["dark:"+c]; ok {
+						v = o
+					}
+					de[c] = v
+				}
+				ev["cssDarkExpected"] = de
+			}
+			ev["digest"] = fmt.Sprintf("%x", sha256.Sum256(svg))[:16]
+			// ---- C25: the same input rendered again, sequentially and from concurrent goroutines
+			digs := []string{}
+			var mu sync.Mutex
+			var wg sync.WaitGroup
+			if ci < 2 {
+				for k := 0; k < 2; k++ {
+					wg.Add(1)
+					go func() {
+						defer wg.Done()
+						defer func() { recover() }()
+						d2, _, err := compileWith(text, eng, ro)
+						dg := "ERR"
+						if err == nil {
+							if out, err := d2svg.Render(d2, ro); err == nil {
+								dg = fmt.Sprintf("%x", sha256.Sum256(out))[:16]
+							}
+						}
+						mu.Lock()
+						digs = append(digs, dg)
+						mu.Unlock()
+					}()
+				}
+				wg.Wait()
+			}
+			ev["again"] = digs
+			*evs = append(*evs, ev)
+		})
+	}
+	for _, p := range []string{"C29", "C30", "C31", "C25"} {
+		nt[p] = true
+	}
+	// unknown theme IDs are rejected (C31)
+	guard("render", evs, func() {
+		bad := int64(7777)
+		_, _, err := compileWith(text, eng, &d2svg.RenderOpts{ThemeID: &bad})
+		var err2 error
+		if err == nil {
+			d, _, _ := compileWith(text, eng, nil)
+			_, err2 = d2svg.Render(d, &d2svg.RenderOpts{ThemeID: &bad})
+		}
+		*evs = append(*evs, tr.M{"ev": "badtheme", "rejected": tr.B(err != nil || err2 != nil)})
+	})
+}
+
+func collectStyle(st d2graph.Style, out map[string]string) {
+	v := reflect.ValueOf(st)
+	t := v.Type()
+	for i := 0; i < v.NumField(); i++ {
+		f := v.Field(i)
+		if f.IsNil() {
+			continue
+		}
+		name := strings.Split(t.Field(i).Tag.Get("json"), ",")[0]
+		out["style."+name] = f.Interface().(*d2graph.Scalar).Value
+	}
+}
+
+// extentsOf lists the boxes the property names: shape boxes with half the stroke, shadow / 3D / multiple
+// offsets, outside labels, connection route points with half the stroke, connection labels.
+func extentsOf(d *d2target.Diagram) [][]int {
+	var res [][]int
+	add := func(kind int, x1, y1, x2, y2 float64) {
+		res = append(res, []int{kind, int(math.Floor(x1)), int(math.Floor(y1)), int(math.Ceil(x2)), int(math.Ceil(y2))})
+	}
+	for _, s := range d.Shapes {
+		hs := math.Ceil(float64(s.StrokeWidth) / 2)
+		x, y, w, h := float64(s.Pos.X), float64(s.Pos.Y), float64(s.Width), float64(s.Height)
+		add(1, x-hs, y-hs, x+w+hs, y+h+hs)
+		if s.Shadow {
+			add(2, x, y, x+w+hs+d2target.SHADOW_SIZE_X, y+h+hs+d2target.SHADOW_SIZE_Y)
+		}
+		if s.ThreeDee {
+			off := float64(d2target.THREE_DEE_OFFSET)
+			oy := off
+			if s.Type == d2target.ShapeHexagon {
+				oy = off / 2
+			}
+			add(3, x, y-oy, x+w+off, y+h)
+		}
+		if s.Multiple {
+			off := float64(d2target.MULTIPLE_OFFSET)
+			add(4, x, y-off, x+w+off, y+h)
+		}
+		if s.Label != "" && s.LabelPosition != "" {
+			lp := label.FromString(s.LabelPosition)
+			if lp.IsOutside() {
+				box := geo.NewBox(geo.NewPoint(x, y), w, h)
+				tl := lp.GetPointOnBox(box, label.PADDING, float64(s.LabelWidth), float64(s.LabelHeight))
+				add(5, tl.X, tl.Y, tl.X+float64(s.LabelWidth), tl.Y+float64(s.LabelHeight))
+			}
+		}
+	}
+	for _, c := range d.Connections {
+		hs := math.Ceil(float64(c.StrokeWidth) / 2)
+		for _, p := range c.Route {
+			add(6, p.X-hs, p.Y-hs, p.X+hs, p.Y+hs)
+		}
+		if c.Label != "" {
+			if tl := c.GetLabelTopLeft(); tl != nil {
+				add(7, tl.X, tl.Y, tl.X+float64(c.LabelWidth), tl.Y+float64(c.LabelHeight))
+			}
+		}
+	}
+	return res
+}
+
+var reInnerSVG = regexp.MustCompile(`<svg[^>]*class="[^"]*d2-svg[^"]*"[^>]*viewBox="(-?\d+) (-?\d+) (-?\d+) (-?\d+)"`)
+var reInnerSVG2 = regexp.MustCompile(`<svg[^>]*viewBox="(-?\d+) (-?\d+) (-?\d+) (-?\d+)"[^>]*class="d2-svg"`)
+
+func innerViewBox(svg []byte) []int {
+	m := reInnerSVG.FindSubmatch(svg)
+	if m == nil {
+		m = reInnerSVG2.FindSubmatch(svg)
+	}
+	if m == nil {
+		return []int{0, 0, 0, 0}
+	}
+	out := make([]int, 4)
+	for i := range out {
+		out[i], _ = strconv.Atoi(string(m[i+1]))
+	}
+	return out
+}
+
+// svgScan tokenises the SVG with Go's strict XML decoder.
+func svgScan(svg []byte) (ok bool, elems, attrs []string, markerInNames int) {
+	dec := xml.NewDecoder(bytes.NewReader(svg))
+	dec.Strict = true
+	dec.Entity = xml.HTMLEntity
+	es, as := map[string]bool{}, map[string]bool{}
+	depth := 0
+	for {
+		tok, err := dec.Token()
+		if err == io.EOF {
+			break
+		}
+		if err != nil {
+			return false, keys(es), keys(as), markerInNames
+		}
+		switch t := tok.(type) {
+		case xml.StartElement:
+			depth++
+			es[t.Name.Local] = true
+			if strings.Contains(t.Name.Local, injectMarker) {
+				markerInNames++
+			}
+			seen := map[string]bool{}
+			for _, a := range t.Attr {
+				n := a.Name.Local
+				if a.Name.Space != "" {
+					n = a.Name.Space + ":" + n
+				}
+				as[n] = true
+				if strings.Contains(n, injectMarker) || seen[n] {
+					markerInNames++
+				}
+				seen[n] = true
+			}
+		case xml.EndElement:
+			depth--
+		}
+	}
+	return depth == 0, keys(es), keys(as), markerInNames
+}
+
+func keys(m map[string]bool) []string {
+	r := make([]string, 0, len(m))
+	for k := range m {
+		r = append(r, k)
+	}
+	sort.Strings(r)
+	return r
+}
+
+var reCSSRule = regexp.MustCompile(`\.fill-([A-Z]+[0-9])\{fill:([^;}]+);\}`)
+
+// cssColors extracts code -> colour from the .fill-XX rules of the light block or of the dark media block.
+func cssColors(svg []byte, dark bool) tr.M {
+	s := string(svg)
+	const media = "@media screen and (prefers-color-scheme:dark){"
+	i := strings.Index(s, media)
+	var part string
+	if dark {
+		if i < 0 {
+			return tr.M{}
+		}
+		part = s[i+len(media):]
+	} else {
+		part = s
+		if i >= 0 {
+			part = s[:i]
+		}
+	}
+	out := tr.M{}
+	for _, m := range reCSSRule.FindAllStringSubmatch(part, -1) {
+		if _, seen := out[m[1]]; !seen {
+			out[m[1]] = m[2]
+		}
+	}
+	return out
+}
+
+var _ = context.Background
